@@ -418,6 +418,16 @@ def oracle_history(ctx, em, mps, psi):
         x = step_x(sc.order) * float(rng.uniform(0.3, 1.0))
         h = x / em.hnorm
         prev = cur
+        if sc.family in ("vmf", "cmf") and any(b > c for b, c in zip(cur.bond_dims, mps.bond_dims)):
+            # a two-site or P&C step before has padded the bonds with zero-weight directions; the matrix-unfolding schemes
+            # refuse redundant bond directions (documented limitation, 8.2): a lossless compression (pure representation
+            # change) removes them first
+            cur = cur.copy()
+            cur.compress_config = evolve.big_cfg()
+            cur.ensure_right_canonical()
+            cur.compress(temp_m_trunc=[int(b) for b in mps.bond_dims])
+            ctx.cls("history:redundant-bonds-removed-before-mu-scheme")
+            ctx.close(states.dense_of(cur), states.dense_of(prev), 1e-9, "harness|lossless-compression-changed-the-state", scale=1.0)
         cur = evolve.run_step(ctx, sc, cur, em.mpo, h)
         ref = evolve.exact(em, ref, h)
         order = sc.order
